@@ -383,6 +383,31 @@ fn main() {
         t
     });
 
+    // S3f: the five decision shapes (10..01, 49..9, 50..0, 50..01, 9..9) of the dropped digits at EVERY dropped
+    // length 1..=L ({:.N} and {:.Ne})
+    let lmax3f: usize = tier.pick(1500, 6000);
+    run.bound("S3f_dropped_lengths", format!("1..={}", lmax3f));
+    run.par("S3f decision shapes at every dropped length", lmax3f, |li| {
+        let l = li + 1;
+        let mut t = Tally::default();
+        for tail in decision_tails(l) {
+            for (head, sign) in [("7", 1), ("86", -1)] {
+                let digits = format!("{}{}", head, tail);
+                let h = head.len();
+                // the head as integer part; entirely fractional
+                for s in [l as i128, (l + h) as i128] {
+                    let x = Dec { n: big(&digits) * sign, s };
+                    let n_keep = (s - l as i128) as usize;
+                    let mut ns = vec![n_keep, h - 1];
+                    ns.sort();
+                    ns.dedup();
+                    sweep(&run, &cfg, &x, &ns, &mut t);
+                }
+            }
+        }
+        t
+    });
+
     // S3c carry chains of every length behind every prefix length; word-limit coefficients
     let cc = carry_chains(tier.pick(20, 40), tier.pick(24, 70));
     run.bound("S3c_carry_chains", cc.len());
